@@ -23,6 +23,13 @@ struct Prop {
 fn table() -> Vec<Prop> {
     let mut v = vec![
     Prop {
+        id: "C20",
+        run: props::c20::run,
+        replay: props::c20::replay,
+        rule: props::c20::RULE,
+        assumptions: &["every build is the same harness source compiled through the facade crates with another cargo feature set (own target directory each); the builds are listed in VERIF_C20_BINS by ./check", "hash values are compared through std's DefaultHasher with fixed keys", "maximize / minimize steps are left out of the histories because they exist only with likelysubtags (an extra API)"],
+    },
+    Prop {
         id: "C01",
         run: props::c01::run,
         replay: props::c01::replay,
@@ -105,6 +112,13 @@ fn table() -> Vec<Prop> {
         replay: props::c15::replay,
         rule: props::c15::RULE,
         assumptions: &["reference predicates transcribe the UTS #35 EBNF productions quoted in the property"],
+    },
+    Prop {
+        id: "C16",
+        run: props::c16::run,
+        replay: props::c16::replay,
+        rule: props::c16::RULE,
+        assumptions: &["well-formed / ill-formed is decided by the reference model of harness/src/model.rs; literals in the property's 'either' zones are never generated", "the generated crates are built by cargo (offline) against /repo's facade crates with features = [\"macros\"]; a build failure that cannot be attributed to a generated invocation is inconclusive (exit 2)", "only literals expressible as Rust string literals (valid UTF-8) are used"],
     },
     Prop {
         id: "C17",
@@ -194,6 +208,10 @@ fn main() {
             _ => 2,
         };
         std::process::exit(code);
+    }
+    if submode && id == "C20" && args[2] == "--transcript" {
+        let Some(path) = args.get(4) else { std::process::exit(2) };
+        std::process::exit(props::c20::transcript_mode(&cfg, path));
     }
     if submode && id == "C14" && args[2] == "--config-child" {
         std::process::exit(props::c14::child_mode(&cfg));
